@@ -11,11 +11,13 @@ NOT_APPLICABLE = {
 
 PLAN = {
     "C01": dict(
-        verus=[], kani=["slots", "wkc", "storage", "rx"], assumptions=['Kani has no threads: every operation is proved from an arbitrary slot state; their composition under concurrency is the Verus lemma slot_protocol plus the memory-model assumption', 'receive_frame / lookup harnesses are bounded in slots, slot size and input length (listed under bounded_not_counted_as_proved)', 'the contract of the 2nd and later items of ReceivedPduIter is assumed (CBMC does not finish two calls)'], level="proof",
+        verus=["group_cycle"], kani=["slots", "wkc", "storage", "rx"], assumptions=['Kani has no threads: every operation is proved from an arbitrary slot state; their composition under concurrency is the Verus lemma slot_protocol plus the memory-model assumption', 'receive_frame / lookup harnesses are bounded in slots, slot size and input length (listed under bounded_not_counted_as_proved)', 'the contract of the 2nd and later items of ReceivedPduIter is assumed (CBMC does not finish two calls)'], level="proof",
         claim="sequential core of response routing on the real code (Kani): index lookup returns the lowest matching slot and never an empty one; "
               "receive_frame stores the response byte-exact into exactly the Sent slot that owns the first datagram index and marks it RxDone; "
               "poll returns Ok only from RxDone; first_pdu validates command/index and views exactly the datagram's data area; trim_front "
-              "shortens the view; wkc is the two bytes after the data. Loop-free harnesses over full-domain inputs are complete; receive_frame is "
+              "shortens the view; wkc is the two bytes after the data; a genuine response is always Processed, a fitting datagram with the expected command and index is "
+              "always delivered (completeness clauses); MainDevice::single_pdu extracted whole (Verus): one datagram with the caller's command and max(data, override) bytes goes "
+              "out and the caller gets the data area and counter of what came back for it. Loop-free harnesses over full-domain inputs are complete; receive_frame is "
               "a bounded stand-in (N=2, DATA=44, input <= 50 bytes).",
         note="the quantifier over schedules is NOT decided by contracts: it rests on the stated assumption that an execution is an interleaving of the "
              "atomic slot operations whose sequential contracts are proved here (C02 composition argument); known finding D2 (view outlives its slot)",
